@@ -19,6 +19,7 @@ import (
 	"io"
 	"runtime"
 	"sort"
+	"strconv"
 	"strings"
 	"sync"
 	"sync/atomic"
@@ -260,7 +261,7 @@ type scenario struct {
 }
 
 var terminators = []string{"peer-close", "stream-error", "handler-error", "deadline", "transport-eof"}
-var forced = []string{"X1a", "X1b", "X2", "X3", "X4", "X5a", "X5b", "X5c", "X6", "X7", "X8", "X9", "X10", "X11"}
+var forced = []string{"X1a", "X1b", "X2", "X3", "X4", "X5a", "X5b", "X5c", "X6", "X7", "X8", "X9", "X10", "X11", "X12", "X13"}
 
 func run(c *core.Case) {
 	if c.Index < len(forced)*2 {
@@ -280,6 +281,7 @@ type world struct {
 	termAt  atomic.Int64
 	serveAt atomic.Int64 // logical time at which Serve returned
 
+	errText     int          // length (runes) of the <text/> in the peer's stream error / the handler's stream.Error (0: none)
 	faulted     bool         // a write fault was injected on the closing tag
 	faultAt     int          // wire offset at which the transport was made to fail (forced X5*)
 	wireAtClose atomic.Int64 // bytes on the wire when the first Close call returned (-1: none yet)
@@ -297,6 +299,14 @@ func newWorldLoop(c *core.Case, o sess.Opts, withLoop bool) *world {
 	w.wireAtClose.Store(-1)
 	handler := xmpp.HandlerFunc(func(t xmlstream.TokenReadEncoder, start *xml.StartElement) error {
 		if start.Name.Local == "fail" {
+			for _, a := range start.Attr {
+				if a.Name.Local == "n" {
+					// a stream error of the application with a long text: larger than
+					// any buffer between the session and the connection
+					n, _ := strconv.Atoi(a.Value)
+					return stream.Error{Err: "policy-violation", Text: []struct{ Lang, Value string }{{Lang: "en", Value: strings.Repeat("é", n)}}}
+				}
+			}
 			return errors.New("verif: handler failure requested by the peer")
 		}
 		if start.Name.Local != "iq" {
@@ -365,9 +375,19 @@ func (w *world) terminate(kind string) {
 	case "peer-close":
 		w.p.ClosePeer()
 	case "stream-error":
-		w.p.Send(`<stream:error><conflict xmlns='urn:ietf:params:xml:ns:xmpp-streams'/></stream:error></stream:stream>`)
+		text := ""
+		if w.errText > 0 {
+			text = "<text xmlns='urn:ietf:params:xml:ns:xmpp-streams' xml:lang='en'>" + strings.Repeat("é", w.errText) + "</text>"
+			w.c.Count("terminators_with_a_stream_error_larger_than_the_output_buffer", 1)
+		}
+		w.p.Send(`<stream:error><conflict xmlns='urn:ietf:params:xml:ns:xmpp-streams'/>` + text + `</stream:error></stream:stream>`)
 	case "handler-error":
-		w.p.Send(`<fail xmlns='urn:verif:c10'/>`)
+		if w.errText > 0 {
+			w.c.Count("terminators_with_a_stream_error_larger_than_the_output_buffer", 1)
+			w.p.Send(fmt.Sprintf(`<fail xmlns='urn:verif:c10' n='%d'/>`, w.errText))
+		} else {
+			w.p.Send(`<fail xmlns='urn:verif:c10'/>`)
+		}
 	case "transport-eof":
 		// the connection ends without the peer having closed its stream: the
 		// statement does not say what Serve returns then, only that it returns,
@@ -524,7 +544,21 @@ func (w *world) finish(term string, smp *sample) {
 	}
 	st := xmltree.ParseStream(wire, true)
 	if st.Err != nil {
-		c.Violate("close:malformed", "output stream malformed: %v; tail %q", st.Err, tail(wire, 300))
+		// One malformation is a recorded finding of the unchanged tree: the session's
+		// own stream error is encoded into the buffered encoder and never flushed,
+		// so of an error larger than the buffer a prefix reaches the wire and the
+		// closing tag, written to the connection itself, cuts it.  Everything
+		// before that element must still be well formed.
+		const errOpen = `<error xmlns="http://etherx.jabber.org/streams">`
+		key := "close:malformed"
+		if i := bytes.Index(wire, []byte(closeTag)); i >= 0 {
+			if j := bytes.LastIndex(wire[:i], []byte(errOpen)); j >= 0 && !bytes.Contains(wire[j:i], []byte("</error>")) {
+				if pre := xmltree.ParseStream(append(append([]byte{}, wire[:j]...), closeTag...), true); pre.Err == nil {
+					key = "close:malformed:stream-error-cut-by-closing-tag"
+				}
+			}
+		}
+		c.Violate(key, "output stream malformed: %v; tail %q", st.Err, tail(wire, 300))
 	}
 	onWire := map[string]int{}
 	for _, elx := range st.Elems {
@@ -710,6 +744,9 @@ func runStress(c *core.Case) {
 	w := newWorld(c, o)
 	if w == nil {
 		return
+	}
+	if r.Intn(3) == 0 {
+		w.errText = []int{40, 2100, 4500}[r.Intn(3)]
 	}
 	var wcount atomic.Int64
 	w.p.Lib.SetAfterWrite(func(int) {
@@ -1284,6 +1321,16 @@ func runForced(c *core.Case, id string, s2s bool) {
 		cancel()
 		smp.Senders = 1
 		c.Count("cancelled_sender_deadline_scenarios", 1)
+	case "X12", "X13": // the application has closed its side; then the session ends with a stream error (X12: the peer's, X13: the handler's) whose encoding is larger than the output buffer
+		w.errText = 2300 + 400*(c.Index%3)
+		<-closeAsync("closer1")
+		smp.Closers = 1
+		term = "stream-error"
+		if id == "X13" {
+			term = "handler-error"
+		}
+		smp.Terminator = term
+		c.Count("closed_then_large_stream_error_scenarios", 1)
 	case "X4": // a user's Close is parked; the peer closes and Serve shuts down; then the user continues
 		r1 := ct.Park("close.enter", "")
 		d1 := closeAsync("closer1")
@@ -1322,7 +1369,7 @@ func Prop() *core.Prop {
 		Level: core.Exploration,
 		Race:  true,
 		Units: "porcupine_ops", // operations (close, transmit, Serve) placed by the checker
-		Rule:  "the first 28 cases are the forced scenarios X1a/X1b/X2/X3/X4 (orderings at the close.enter / senderr.enter yield points) X5a/X5b/X5c (the transport fails, entirely, after 5 bytes, or with a short write of 5 bytes, exactly on the write of the closing tag) and X6 (a transport with synchronous writes in both directions: Close blocked on the closing tag while the peer sends two more stanzas before reading) and X7 (a sender's context ends during its write and the write-deadline helper is parked at wdl.armed while the handler answers a peer IQ) and X8 (SetCloseDeadline replaces the input context while the serve loop is parked at serve.loop holding the old one) and X9 (a Close and the serve loop's default reply to an unanswered IQ both queue behind a token writer the application holds in mid-element) and X10 (a short close deadline replaced by a distant one, traffic past the first instant, then the peer's closing tag) and X11 (transmits whose contexts are over queue behind a Close that is blocked writing the closing tag to a slow peer), each c2s and s2s; the rest are stress histories on one served session (a third of them on a layered transport: a plain io.ReadWriter around the connection installed during negotiation, deadlines proxied): 0-3 closers (1-3 Close calls each, sometimes SetCloseDeadline), 1-4 senders drawing from 13 transmit entry points, peer-injected IQs answered by the handler or left to the session's default reply, and one terminator from {peer close tag, peer stream error, handler error, silence + 50 ms close deadline, end of the connection without a closing tag} issued early or after the actors; afterwards every entry point is called once more on the closed session. Oracles: closing-tag count and bytes after it on the peer side; porcupine check of the recorded history against a two-state closable-log model; marker-on-wire side conditions; State()/TokenReader after Serve; Serve's return per terminator. Distinct = (kind, terminator, closers, some transmit overlapped a Close?, some transmit began after a Close returned?, tags) and the observed interleaving of each history: the logical-clock order of the call/return boundaries of every explicit Close (C) and of Serve's own shutdown (S), with the transmits classified as before / overlapping / after the closes and by outcome (signatures order/…).",
+		Rule:  "the first 32 cases are the forced scenarios X1a/X1b/X2/X3/X4 (orderings at the close.enter / senderr.enter yield points) X5a/X5b/X5c (the transport fails, entirely, after 5 bytes, or with a short write of 5 bytes, exactly on the write of the closing tag) and X6 (a transport with synchronous writes in both directions: Close blocked on the closing tag while the peer sends two more stanzas before reading) and X7 (a sender's context ends during its write and the write-deadline helper is parked at wdl.armed while the handler answers a peer IQ) and X8 (SetCloseDeadline replaces the input context while the serve loop is parked at serve.loop holding the old one) and X9 (a Close and the serve loop's default reply to an unanswered IQ both queue behind a token writer the application holds in mid-element) and X10 (a short close deadline replaced by a distant one, traffic past the first instant, then the peer's closing tag) and X11 (transmits whose contexts are over queue behind a Close that is blocked writing the closing tag to a slow peer) and X12/X13 (the application closes; then the session ends with the peer's / the handler's stream error whose text is larger than every buffer between the session and the connection), each c2s and s2s; the rest are stress histories on one served session (a third of them on a layered transport: a plain io.ReadWriter around the connection installed during negotiation, deadlines proxied): 0-3 closers (1-3 Close calls each, sometimes SetCloseDeadline), 1-4 senders drawing from 13 transmit entry points, peer-injected IQs answered by the handler or left to the session's default reply, and one terminator from {peer close tag, peer stream error, handler error, silence + 50 ms close deadline, end of the connection without a closing tag} issued early or after the actors, stream errors in a third of the histories with a text of 40 to 4500 two-byte runes; afterwards every entry point is called once more on the closed session. Oracles: closing-tag count and bytes after it on the peer side; porcupine check of the recorded history against a two-state closable-log model; marker-on-wire side conditions; State()/TokenReader after Serve; Serve's return per terminator. Distinct = (kind, terminator, closers, some transmit overlapped a Close?, some transmit began after a Close returned?, tags) and the observed interleaving of each history: the logical-clock order of the call/return boundaries of every explicit Close (C) and of Serve's own shutdown (S), with the transmits classified as before / overlapping / after the closes and by outcome (signatures order/…).",
 		Assumptions: []string{
 			"a transmit that overlaps a Close in time may land on either side of the closing tag",
 			"handler replies are buffered until the handler returns, so their on-wire side condition is not demanded; their error value is",
@@ -1336,7 +1383,7 @@ func Prop() *core.Prop {
 			return len(forced)*2 + 70
 		},
 		Run: run,
-		Require: []string{"forced_scenarios", "stress_histories", "close_under_write_fault", "close_returns_with_wire_snapshot", "synchronous_transport_closes", "cancelled_sender_deadline_scenarios", "close_deadline_during_loop_scenarios", "close_vs_default_reply_scenarios", "close_deadline_extended_scenarios", "transmits_queued_behind_blocked_close_scenarios", "unanswered_iqs_injected", "x9_close_queued_behind_writer", "x9_default_reply_queued_behind_writer", "layered_transport_histories", "layered_transport_close_deadline", "yield:close.enter", "yield:senderr.enter", "transmits_overlapping_a_close",
+		Require: []string{"forced_scenarios", "stress_histories", "closed_then_large_stream_error_scenarios", "terminators_with_a_stream_error_larger_than_the_output_buffer", "close_under_write_fault", "close_returns_with_wire_snapshot", "synchronous_transport_closes", "cancelled_sender_deadline_scenarios", "close_deadline_during_loop_scenarios", "close_vs_default_reply_scenarios", "close_deadline_extended_scenarios", "transmits_queued_behind_blocked_close_scenarios", "unanswered_iqs_injected", "x9_close_queued_behind_writer", "x9_default_reply_queued_behind_writer", "layered_transport_histories", "layered_transport_close_deadline", "yield:close.enter", "yield:senderr.enter", "transmits_overlapping_a_close",
 			"transmits_begun_after_a_close_returned", "late_transmits", "porcupine_checks",
 			"serve_returned:peer-close", "serve_returned:stream-error", "serve_returned:handler-error", "serve_returned:deadline", "serve_returned:transport-eof"},
 		ReplayRepeats: 10,
